@@ -653,7 +653,11 @@ func builtinAppend(i *Interpreter, args []Expr, env *Environment) (interface{}, 
 	if err != nil {
 		return nil, err
 	}
-	return append(arr, item), nil
+	// A new array every time: append(arr, item) on the caller's slice would
+	// let two results grown from one array share (and overwrite) storage.
+	result := make([]interface{}, len(arr), len(arr)+1)
+	copy(result, arr)
+	return append(result, item), nil
 }
 
 func builtinSet(i *Interpreter, args []Expr, env *Environment) (interface{}, error) {
